@@ -57,7 +57,7 @@ def _collision(a, b, i=0):
 
 def _install():
     import artap.individual as I
-    stubs.install((I, 'hash', shash), (I, 'np', stubs.numpy_shim), (I, 'float', ops.sfloat))
+    stubs.install((I, 'hash', shash), (I, 'np', stubs.numpy_shim), (I, 'float', ops.sfloat), (I, 'math', stubs.math_shim))
     return I
 
 
